@@ -73,6 +73,22 @@ def check_spec(h: Harness, site: str, spec: Spec, b: Built, usable: bool = True,
                f"parameter of the supplied classes mentions: {sx(line_spec)}", sx(line_spec))
         return g
     alts, dist = observe(b, g)
+    # independent of the model: every supplied class that derives (through its chain of first bases) from the start symbol is
+    # a production of its direct parent
+    listed = {p: set(cs) for p, cs in alts}
+    for i in spec.considered:
+        chain, j = [], i
+        while j is not None and j not in chain:
+            chain.append(j)
+            j = spec.classes[j].parent
+        if i != spec.start and spec.start in chain and spec.classes[i].parent is not None:
+            par = spec.classes[i].parent
+            if i not in listed.get(par, set()):
+                h.fail(site, "supplied-production-missing",
+                       f"class {spec.classes[i].name} was supplied, derives from the start symbol and has the direct parent {spec.classes[par].name}, "
+                       f"but the grammar lists the productions {[spec.classes[c].name for c in sorted(listed.get(par, set()))]} for "
+                       f"{spec.classes[par].name}: {sx(line_spec)}", sx(line_spec))
+                break
     rec = syms(b, g.recursive_prods)
     term = syms(b, g.terminals)
     nonterm = syms(b, g.non_terminals)
